@@ -39,7 +39,7 @@ def cases(tier, seed):
                            n=2001 if tier == 'quick' else 8001)
     yield dict(kind='invalid')
     for neg in (None, -1, -30, -5000):
-        for cont in ('fcs', 'array', 'fcs-list', 'array-list', 'fcs-1d'):
+        for cont in ('fcs', 'array', 'fcs-list', 'array-list', 'fcs-1d', 'fcs-list-rev', 'array-list-rev', 'fcs-list3', 'array-list3'):
             yield dict(kind='derive', neg=neg, cont=cont, dt='F')
             yield dict(kind='derive', neg=neg, cont=cont, dt='D')
     yield dict(kind='axis')
@@ -155,7 +155,9 @@ def run_derive(c, res):
     ptol = 1e-6 if dt == 'F' else 1e-9        # single-precision events: W is legitimately evaluated in single precision
     d0, ranges = make_data(neg, 0, dt)
     d1, _ = make_data(None if neg is None else neg * 3, 1, dt)
+    dn, _ = make_data(None, 2, dt)
     a0, a1 = np.array(d0.view(np.ndarray), dtype=float), np.array(d1.view(np.ndarray), dtype=float)
+    an = np.array(dn.view(np.ndarray), dtype=float)
     for ch in range(3):
         for ovr in ({}, {'T': 5000.0}, {'M': 5.5}, {'W': 0.75}, {'T': 300.0, 'M': 3.0}):
             if cont == 'fcs':
@@ -169,6 +171,18 @@ def run_derive(c, res):
                 chan = 'CH%d' % (ch + 1)
             elif cont == 'array-list':
                 data, cols, rng = [a0, a1], [a0[:, ch], a1[:, ch]], [None, None]
+                chan = ch
+            elif cont == 'fcs-list-rev':          # the most negative event is NOT in the last sample
+                data, cols, rng = [d1, d0], [a1[:, ch], a0[:, ch]], [ranges[ch] - 1] * 2
+                chan = ch
+            elif cont == 'array-list-rev':
+                data, cols, rng = [a1, a0], [a1[:, ch], a0[:, ch]], [None, None]
+                chan = ch
+            elif cont == 'fcs-list3':             # no negatives / most negative / mildly negative
+                data, cols, rng = [dn, d1, d0], [an[:, ch], a1[:, ch], a0[:, ch]], [ranges[ch] - 1] * 3
+                chan = 'CH%d' % (ch + 1)
+            elif cont == 'array-list3':
+                data, cols, rng = [a1, an, a0], [a1[:, ch], an[:, ch], a0[:, ch]], [None] * 3
                 chan = ch
             else:
                 data, cols, rng = d0[:, ch], [a0[:, ch]], [ranges[ch] - 1]
